@@ -84,6 +84,7 @@ func (m *topkRedis) Exec(op Tok) (opOut Tok, obs Tok) {
 		// predicted form for the case that construction panics (nil sketch): dimensions 0
 		opOut = TL(a[0], a[1], a[2], TNu(0), TNu(0), TNu(m.orc.addFloat(er)), TNu(m.orc.addFloat(acc)),
 			TBs([]byte(ertxt)), TBs([]byte(acctxt)), TBs(nil), TBs(nil), TBs(nil), TBs(nil))
+		before := redisKeys()
 		t := gx.NewTopKRedis(uint(a[2].U()), er, acc)
 		if t == nil {
 			return opOut, TErr(errGeneric)
@@ -93,6 +94,9 @@ func (m *topkRedis) Exec(op Tok) (opOut Tok, obs Tok) {
 		opOut = TL(a[0], a[1], a[2], TNu(uint64(rows)), TNu(uint64(cols)), TNu(m.orc.addFloat(er)), TNu(m.orc.addFloat(acc)),
 			TBs([]byte(ertxt)), TBs([]byte(acctxt)), TBs([]byte(skey)), TBs([]byte(smeta)), TBs([]byte(hkey)), TBs([]byte(meta)))
 		m.inst[a[1].I()] = t
+		if x, bad := staleKey(before, skey, smeta, hkey, meta); bad {
+			return opOut, x
+		}
 		return opOut, TOk(TUnit())
 	case tkInsert:
 		t := m.inst[a[1].I()]
@@ -168,6 +172,7 @@ func (m *topkRedis) Exec(op Tok) (opOut Tok, obs Tok) {
 		if t == nil || !ok {
 			return TL(a[0], a[1]), inv
 		}
+		before := redisKeys()
 		err := t.Import(src, a[3].U() != 0)
 		_, er, acc, sk, hkey, _ := gx.VerifTopKRedisState(t)
 		m.orc.addFloat(er)
@@ -179,6 +184,9 @@ func (m *topkRedis) Exec(op Tok) (opOut Tok, obs Tok) {
 		opOut = TL(a[0], a[1], topkDocTok(src), TBs([]byte(hkey)), TBs([]byte(skey)), TBs([]byte(smeta)))
 		if err != nil {
 			return opOut, TErr(errGeneric)
+		}
+		if x, bad := staleKey(before, hkey, skey, smeta); a[3].U() != 0 && bad {
+			return opOut, x
 		}
 		return opOut, TOk(TUnit())
 	}
